@@ -43,6 +43,7 @@ type c08Case struct {
 	expected string // canonical tree
 	nops     int
 	kind     string
+	pty      string // type of the parameters a..r, x, y ("" = int)
 }
 
 type c08Operand struct {
@@ -221,6 +222,116 @@ func c08VeryLongDriver(lengths []int) func(c *explore.Chooser) *c08Case {
 	}
 }
 
+// well-typed chains (after seed C08g): the chains above are over int parameters whatever the operator, fc does not
+// type-check them - an emitter that looks at the inferred TYPE of a node (string concatenation, boolean
+// connectives, integer arithmetic) prints those as ever.  Here every chain is well typed over string or int
+// parameters: arithmetic chains (string: +) whose operands are atoms, literals, applications, parenthesised
+// sub-chains (x op y), (x op (y op r)), ((x op y) op r); comparisons of two such chains; two comparisons joined by
+// && or ||.  The grouping demanded is the same: the table, left association, explicit parentheses kept.
+func c08TypedDriver(deep bool) func(c *explore.Chooser) *c08Case {
+	return func(c *explore.Chooser) *c08Case {
+		ty := c.Choose(2)
+		pty := []string{"string", "int"}[ty]
+		arith := [][]string{{"+"}, {"+", "-", "*", "/"}}[ty]
+		small := [][]string{{"+"}, {"+", "*"}}[ty]
+		next := 0
+		atom := func() string {
+			a := c08Atoms[next]
+			next++
+			return a
+		}
+		// operand forms; level 0 = all forms, 1 = atom or (x op y)
+		operand := func(ops []string, level int) c08Operand {
+			at := atom()
+			nf := 7
+			if level == 1 {
+				nf = 2
+			}
+			switch c.Choose(nf) {
+			case 1:
+				op := ops[c.Choose(len(ops))]
+				return c08Operand{"(" + at + " " + op + " y)", "(" + at + " " + op + " y)"}
+			case 2:
+				op := ops[c.Choose(len(ops))]
+				return c08Operand{"(" + at + " " + op + " (y " + op + " r))", "(" + at + " " + op + " (y " + op + " r))"}
+			case 3:
+				op := ops[c.Choose(len(ops))]
+				return c08Operand{"((" + at + " " + op + " y) " + op + " r)", "((" + at + " " + op + " y) " + op + " r)"}
+			case 4:
+				if ty == 0 {
+					return c08Operand{`"lit"`, `"lit"`}
+				}
+				return c08Operand{"7", "7"}
+			case 5:
+				if ty == 0 {
+					return c08Operand{"gs " + at + " x", "gs(" + at + ",x)"}
+				}
+				return c08Operand{"g " + at + " x", "g(" + at + ",x)"}
+			case 6:
+				// a parenthesised atom: the parentheses group nothing
+				return c08Operand{"(" + at + ")", at}
+			}
+			return c08Operand{at, at}
+		}
+		chain := func(ops []string, maxOps, level int) ([]c08Operand, []string) {
+			n := c.Choose(maxOps + 1)
+			var os []string
+			for i := 0; i < n; i++ {
+				os = append(os, ops[c.Choose(len(ops))])
+			}
+			var xs []c08Operand
+			for i := 0; i <= n; i++ {
+				xs = append(xs, operand(ops, level))
+			}
+			return xs, os
+		}
+		var operands []c08Operand
+		var ops []string
+		kind := "typed-" + pty
+		switch c.Choose(3) {
+		case 0:
+			mx := 2
+			if deep {
+				mx = 3
+			}
+			operands, ops = chain(arith, mx, 0)
+			if len(ops) == 0 {
+				c.Skip("no operator")
+			}
+		case 1:
+			kind += "-comparison"
+			a, ao := chain(small, 1, 1)
+			cmp := []string{"=", "<>", "<", ">", "<=", ">="}[c.Choose(6)]
+			b, bo := chain(small, 1, 1)
+			operands = append(append(operands, a...), b...)
+			ops = append(append(append(ops, ao...), cmp), bo...)
+		case 2:
+			kind += "-logic"
+			cmps := []string{"=", "<>", "<", ">", "<=", ">="}
+			a, _ := chain(small, 0, 1)
+			c1 := cmps[c.Choose(6)]
+			b, _ := chain(small, 0, 1)
+			lop := []string{"&&", "||"}[c.Choose(2)]
+			d, _ := chain(small, 0, 1)
+			c2 := cmps[c.Choose(6)]
+			e, _ := chain(small, 0, 1)
+			// a = b && d < e is NOT what the table makes of this text (&& and < share a rank): the comparisons are
+			// written in parentheses, as a program has to
+			l := c08Operand{"(" + a[0].src + " " + c1 + " " + b[0].src + ")", "(" + a[0].tree + " " + c1 + " " + b[0].tree + ")"}
+			r := c08Operand{"(" + d[0].src + " " + c2 + " " + e[0].src + ")", "(" + d[0].tree + " " + c2 + " " + e[0].tree + ")"}
+			operands, ops = []c08Operand{l, r}, []string{lop}
+		}
+		var sb strings.Builder
+		sb.WriteString(operands[0].src)
+		trees := []string{operands[0].tree}
+		for i, op := range ops {
+			sb.WriteString(" " + op + " " + operands[i+1].src)
+			trees = append(trees, operands[i+1].tree)
+		}
+		return &c08Case{src: sb.String(), expected: c08ShuntingYard(trees, ops), nops: len(ops) + strings.Count(sb.String(), "("), kind: kind, pty: pty}
+	}
+}
+
 // pipe chains: e0 |> s1 |> ... with e0 a chain of <= 2 operators
 func c08PipeDriver(maxE0Ops, maxStages int) func(c *explore.Chooser) *c08Case {
 	return func(c *explore.Chooser) *c08Case {
@@ -268,6 +379,7 @@ const c08Prelude = `package main
 import frt
 
 let g (a:int) (b:int) = a
+let gs (a:string) (b:string) = a
 let p1 x = x
 let p2 a b = b
 let p3 a b c = c
@@ -278,6 +390,10 @@ func c08Render(cases []*c08Case) string {
 	var sb strings.Builder
 	sb.WriteString(c08Prelude)
 	for i, cs := range cases {
+		if cs.pty != "" {
+			fmt.Fprintf(&sb, "let f%d %s =\n  %s\n\n", i, strings.ReplaceAll("(a:T) (b:T) (c:T) (d:T) (e:T) (f:T) (x:T) (y:T) (r:T)", "T", cs.pty), cs.src)
+			continue
+		}
 		fmt.Fprintf(&sb, "let f%d (a:int) (b:int) (c:int) (d:int) (e:int) (f:int) (x:int) (y:int) (h:int) (i:int) (j:int) (k:int) (l:int) (m:int) (n:int) (o:int) (p:int) (q:int) (r:int) =\n  %s\n\n", i, cs.src)
 	}
 	return sb.String()
@@ -453,11 +569,13 @@ func checkC08(c *core.Ctx) {
 		collect(c08PipeDriver(2, 3))
 		collect(c08LongDriver(16, 8))
 		collect(c08VeryLongDriver([]int{64, 99, 100, 101, 102, 103, 130, 257, 513, 1025}))
+		collect(c08TypedDriver(true))
 	} else {
 		collect(c08Driver(3, 2, 3, 2, 1)) // chains <= 3 ops; forms on <= 2 ops; <= 1 break
 		collect(c08PipeDriver(1, 2))
 		collect(c08LongDriver(12, 6))
 		collect(c08VeryLongDriver([]int{64, 100, 101, 102, 103, 130, 257}))
+		collect(c08TypedDriver(false))
 	}
 	c.Set("explorer", map[string]any{"executions": st.Executions, "max_depth": st.MaxDepth, "bound": "none (complete enumeration of the bounded space)"})
 	c.Count(0, st.States, st.Transitions, 0)
